@@ -1186,7 +1186,7 @@ def discharge_qf(obligs, timeout):
         key = tuple(c.get_id() for c in ob.pc) + tuple(c.get_id() for c in ob.axioms)
         if key != cur_key:
             sol = z3.Solver()
-            sol.set("timeout", timeout)
+            sol.set("timeout", backends.scaled_timeout(timeout))
             sol.add(*ob.pc)
             sol.add(*ob.axioms)
             cur_key = key
